@@ -105,16 +105,27 @@ def run_case(c, cert):
     import websocket
     import websocket._http as H
     rec = {}
-    a, b = socket.socketpair()
-    cli = PairSocket(fileno=a.detach())
-    th = threading.Thread(target=server_thread, args=(b, (cert["trusted"], cert["name"]), c["tunnel"], rec), daemon=True)
-    th.start()
+    prior_rec = {}
+    plan = []
+    if c.get("prior"):
+        plan.append((prior_rec, (True, "other"), False))
+    plan.append((rec, (cert["trusted"], cert["name"]), c["tunnel"]))
+    clients = []
+    threads = []
+    for r_, cert_, tun_ in plan:
+        a, b = socket.socketpair()
+        clients.append(PairSocket(fileno=a.detach()))
+        th = threading.Thread(target=server_thread, args=(b, cert_, tun_, r_), daemon=True)
+        th.start()
+        threads.append(th)
+    cli = clients[-1]
+    th = threads[-1]
     sm = types.SimpleNamespace(**{k: getattr(socket, k) for k in dir(socket) if not k.startswith("__")})
     made = []
 
     def mk(*args, **kw):
         made.append(1)
-        return cli
+        return clients[min(len(made) - 1, len(clients) - 1)]
     sm.socket = mk
     sm.getaddrinfo = lambda host, port, *x, **k: [(socket.AF_INET, socket.SOCK_STREAM, 6, "", ("10.0.0.1", port))]
     sslopt = {}
@@ -136,6 +147,10 @@ def run_case(c, cert):
         cx = ssl.SSLContext(ssl.PROTOCOL_TLS_CLIENT)
         cx.load_verify_locations(os.path.join(PKI, "ca.pem"))
         sslopt["context"] = cx
+    if c.get("sslVersion") == "tls_client":
+        sslopt["ssl_version"] = ssl.PROTOCOL_TLS_CLIENT
+    elif c.get("sslVersion") == "tls":
+        sslopt["ssl_version"] = ssl.PROTOCOL_TLS
     if c["serverName"] == "right":
         sslopt["server_hostname"] = "good.test"
     elif c["serverName"] == "wrong":
@@ -156,6 +171,14 @@ def run_case(c, cert):
         if c["tunnel"]:
             kw = {"http_proxy_host": "proxy.test", "http_proxy_port": 3128}
         ws.settimeout(5)
+        if c.get("prior"):
+            # an earlier conversation of the same object (same sslopt dict) with another wss host
+            try:
+                ws.connect("wss://other.test/first")
+                ws.close(timeout=0)
+            except Exception:
+                pass
+            made[:] = [1]
         try:
             ws.connect("%s://good.test/tls" % c["scheme"], **kw)
             outcome = "established" if c["scheme"] == "wss" else "plain"
@@ -182,11 +205,13 @@ def run_case(c, cert):
             ws.close(timeout=0)
         except Exception:
             pass
-        try:
-            cli.close()
-        except OSError:
-            pass
-    th.join(6)
+        for x in clients:
+            try:
+                x.close()
+            except OSError:
+                pass
+    for t_ in threads:
+        t_.join(6)
     sni = rec.get("sni", "")
     return {"c": c, "cert": cert, "outcome": outcome, "firstByteTls": rec.get("first", -1) == 0x16,
             "sni": "good" if sni == "good.test" else "other" if sni == "other.test" else sni,
@@ -197,7 +222,8 @@ def run_case(c, cert):
 
 DIMS = {"scheme": ["wss", "ws"], "certReqs": ["absent", "none", "optional", "required"], "checkHost": ["absent", "true", "false"],
         "caOpt": ["absent", "file", "path"], "caEnv": ["unset", "file", "dir"], "context": ["absent", "permissive", "strict"],
-        "serverName": ["absent", "right", "wrong"], "tunnel": [False, True]}
+        "serverName": ["absent", "right", "wrong"], "tunnel": [False, True], "sslVersion": ["absent", "tls_client", "tls"],
+        "prior": [False, True]}
 CERTS = [{"trusted": t, "name": n} for t in (True, False) for n in ("good", "other")]
 
 
@@ -210,7 +236,8 @@ def cases(rng, tier):
     full = [dict(zip(keys, v)) for v in itertools.product(*[DIMS[k] for k in keys])]
     full = [c for c in full if not contradictory(c)]
     if tier == "thorough":
-        chosen = [c for c in full if c["scheme"] == "wss"] + [c for c in full if c["scheme"] == "ws"][::9]
+        chosen = [c for c in full if c["scheme"] == "wss" and (not c["prior"] or c["caOpt"] != "absent" or c["context"] != "absent")][::2] \
+            + [c for c in full if c["scheme"] == "ws"][::27]
     else:
         rng.shuffle(full)
         seen = set()
@@ -224,7 +251,7 @@ def cases(rng, tier):
         # one-factor-at-a-time around the default, for both paths
         for tunnel in (False, True):
             base = {"scheme": "wss", "certReqs": "absent", "checkHost": "absent", "caOpt": "absent", "caEnv": "unset",
-                    "context": "absent", "serverName": "absent", "tunnel": tunnel}
+                    "context": "absent", "serverName": "absent", "tunnel": tunnel, "sslVersion": "absent", "prior": False}
             chosen.append(dict(base))
             for k in keys:
                 for v in DIMS[k]:
